@@ -119,6 +119,17 @@ class Prov:
             cur = par
         return None
 
+    def _paired(self, target: ast.AST, value: ast.AST, name: str) -> Optional[ast.AST]:
+        """a, b = x, y  ->  the value expression paired with `name` (None when the shapes do not match)"""
+        if isinstance(target, ast.Name):
+            return value if target.id == name else None
+        if isinstance(target, (ast.Tuple, ast.List)) and isinstance(value, (ast.Tuple, ast.List)) and len(target.elts) == len(value.elts) \
+                and not any(isinstance(e, ast.Starred) for e in list(target.elts) + list(value.elts)):
+            for te, ve in zip(target.elts, value.elts):
+                if name in C.target_names(te):
+                    return self._paired(te, ve, name)
+        return None
+
     def _unpack(self, target: ast.AST, name: str, base: Set[Path]) -> Set[Path]:
         if isinstance(target, ast.Name):
             return base
@@ -262,7 +273,11 @@ class Prov:
             if isinstance(st, ast.Assign):
                 for t in st.targets:
                     if name in C.target_names(t):
-                        out |= self._unpack(t, name, self._trace(st.value, d, s2, depth + 1))
+                        paired = self._paired(t, st.value, name)
+                        if paired is not None:
+                            out |= self._trace(paired, d, s2, depth + 1)
+                        else:
+                            out |= self._unpack(t, name, self._trace(st.value, d, s2, depth + 1))
             elif isinstance(st, ast.AnnAssign) and st.value is not None:
                 out |= self._trace(st.value, d, s2, depth + 1)
             elif isinstance(st, ast.AugAssign):
